@@ -268,3 +268,29 @@ def classify(spec, expected, ref_terms):
     if gen.is_matrix(spec["kind"]) and expected - {l for k in ref_terms for l in k}:
         cl.append("matrix_gap")
     return cl
+
+
+def size_cases(tier):
+    """Chains of N spins for N around the powers of two (size-dependent branches, stack-vs-heap switches,
+    chunked loops), through every Matrix path of both kernels; several sizes per worker process."""
+    sizes = [1, 2, 3, 4, 5, 7, 8, 9, 15, 16, 17, 31, 32, 33, 63, 64, 65, 127, 128, 129, 255, 256, 257, 511, 512, 513, 1023, 1024, 1025]
+
+    def chain(func, kind, n, init, in_order, sched):
+        terms = [[(i, i + 1), 1 if i % 2 else -2] for i in range(n - 1)] + [[(0,), 0.5]]
+        if func in ("anneal_puso", "anneal_pubo") and n >= 3:
+            terms.append([(0, 1, 2), 1.5])
+        return {"func": func, "kind": kind, "labels": list(range(n)), "terms": terms, "stale": [],
+                "num_anneals": 2, "anneal_duration": 2, "schedule": ("explicit", sched), "temperature_range": None,
+                "init": ([0, 1] if init else None), "in_order": in_order, "seed": 11}
+    paths = [("anneal_quso", "QUSOMatrix"), ("anneal_qubo", "QUBOMatrix"), ("anneal_puso", "PUSOMatrix"),
+             ("anneal_pubo", "PUBOMatrix"), ("anneal_quso", "QUSO"), ("anneal_puso", "dict")]
+    if tier == "quick":
+        paths = paths[:4]
+    j = 0
+    for func, kind in paths:
+        for lo in range(0, len(sizes), 6):
+            calls = []
+            for n in sizes[lo:lo + 6]:
+                calls.append(chain(func, kind, n, j % 2 == 0, j % 3 != 0, [1.0, 0.0] if j % 2 else [2.0]))
+                j += 1
+            yield {"calls": calls}
